@@ -77,7 +77,10 @@ def _strategy(tier, name):
         fk = ["constant", "poly", "bumps", "spikes", "checker", "noise", "mixed", "boxnoise"]
         return {
             "kernel": name,
-            "shape": draw(gen.grid_shape(dim, 5, hi2 if dim == 2 else hi3, long_axis=70 if dim == 2 else 40)),
+            # a third of the cases: more planes along the outermost axis than any slab / block size in use (16, 32)
+            "shape": draw(st.one_of(gen.grid_shape(dim, 5, hi2 if dim == 2 else hi3, long_axis=70 if dim == 2 else 40),
+                                    gen.grid_shape(dim, 5, hi2 if dim == 2 else hi3, long_axis=70 if dim == 2 else 40),
+                                    st.tuples(st.integers(17, 50), *([st.integers(5, 7)] * (dim - 1))).map(list))),
             "dtype": draw(gen.precisions),
             "threads": draw(st.sampled_from([False, 1, 2])),
             "field": draw(gen.vector_field_spec(3, kinds=fk, max_mag_exp=5)),
